@@ -193,6 +193,46 @@ class ScalarOut(DecoratedOut):
         return [('only_when_unserialisable', z3.Or(SO.ScOut_raises(t, x), SO.ScOut_val(t, x) == V.Undef))]
 
 
+
+EVOut_raises = z3.Function('EnumValueOutputHookRaises', V, V, BoolS)      # (enum value definition, resolved value): the value's own output hook chain
+EVOut_val = z3.Function('EnumValueOutputHookValue', V, V, V)
+AllEnumOutValues = ForallList('enum_value_output_entry', lambda p: z3.And(V.is_Pair(p), exact(V.snd(p), 'GraphQLEnumValue'), V.oref(V.snd(p)) >= 0, V.is_Fun(attr0(V.snd(p), 'output_coercer'))))
+
+
+class EnumOut(DecoratedOut):
+    """output enum_coercer: only a value the enum declares is serialised -- through THAT value's output hook chain, once; anything else is a field error"""
+    key = O + 'enum_coercer.py::enum_coercer'
+    params = ['result', 'info', 'execution_context', 'field_nodes', 'path', 'enum_type']
+
+    def beh(self, A):
+        return OBeh.OEnum(A['enum_type'])
+
+    def pre(self, A, st):
+        t = A['enum_type']
+        return super().pre(A, st) + [('enum_type', z3.And(exact(t, 'GraphQLEnumType'), V.oref(t) >= 0, V.is_Dict(attr0(t, '_value_map')), AllEnumOutValues(V.ditems(attr0(t, '_value_map')))))]
+
+    def call_model(self, en, st, f, a, kw):
+        f = z3.simplify(f)
+        if z3.is_app(f) and f.decl().kind() == z3.Z3_OP_SELECT and f.arg(0).eq(field0('output_coercer')):
+            ev, x = f.arg(1), en.read(a[0], st)
+            r = EVOut_val(ev, x)
+            st = st.put_ghost('inner_called', z3.BoolVal(True)).put_ghost('inner_val', ev)
+            e = V.Obj(fresh('ecls', IntS), fresh('eref', IntS))
+            return en.branches(st, [(z3.And(z3.Not(EVOut_raises(ev, x)), SO.Produced(self.A['enum_type'], r), r != V.Missing, z3.Not(cls_is(r, 'Exception'))), r),
+                                    (z3.And(EVOut_raises(ev, x), cls_is(e, 'Exception'), z3.Not(cls_is(e, 'MultipleException')), z3.Not(cls_is(e, 'KeyError')), V.oref(e) >= 0), Raise(e))])
+        return None
+
+    def post_return(self, A, st0, out):
+        t, x = A['enum_type'], A['result']
+        ev = lookup(V.ditems(attr0(t, '_value_map')), x)
+        return [('declared_value_through_its_own_hooks', z3.And(ev != V.Missing, out.st.ghost['inner_val'] == ev, z3.Not(EVOut_raises(ev, x)), out.value == EVOut_val(ev, x)))]
+
+    def post_raise(self, A, st0, out):
+        t, x = A['enum_type'], A['result']
+        ev = lookup(V.ditems(attr0(t, '_value_map')), x)
+        return [('only_for_an_undeclared_value_or_a_failing_hook', z3.Or(ev == V.Missing, EVOut_raises(ev, x), EVOut_val(ev, x) == V.Undef))]
+
+
 class DirectivesOut(OutputCoercer):
     property_ids = ('C02', 'C03', 'C13')
     key = O + 'directives_coercer.py::output_directives_coercer'
@@ -698,6 +738,6 @@ class GetOutputCoercer(Contract):
         return [('is_closure', V.is_Fun(out.value)), ('denotes_type', denote(out.value) == SO.OBehT(A['graphql_type'], self.cc()))]
 
 
-CONTRACTS = COMMON_CONTRACTS + [GetOutputCoercer(), ListOut(O + 'list_coercer.py::list_coercer_sequentially', False), ListOut(O + 'list_coercer.py::list_coercer_concurrently', True), IsCoercible(), MultipleExceptionBool(), MultipleExceptionAdd(), ExtractExceptions(), LocatedError(), LocatedErrorBinding(), AddError(),
+CONTRACTS = COMMON_CONTRACTS + [GetOutputCoercer(), ListOut(O + 'list_coercer.py::list_coercer_sequentially', False), ListOut(O + 'list_coercer.py::list_coercer_concurrently', True), IsCoercible(), MultipleExceptionBool(), MultipleExceptionAdd(), ExtractExceptions(), LocatedError(), LocatedErrorBinding(), AddError(), EnumOut(),
                                 HandleFieldError(), CompleteValueCatchingError(), NonNullOut(), NullWrapperOut(), ScalarOut(), DirectivesOut()]
 LEMMAS = [Lemma('pointwise:' + imp.name, *imp.pointwise()) for imp in ListImplication.registry]
